@@ -31,14 +31,25 @@ func GetLabelsValues(obj *metav1.ObjectMeta) ([]string, []string) {
 
 // BuildInfoLabels build the lists of label keys and values from the ObjectMeta Labels.
 func BuildInfoLabels(obj *metav1.ObjectMeta) ([]string, []string) {
-	labelKeys := []string{}
+	// sort the original keys, so that each sanitized key stays paired with the value of the label it comes from
+	// (looking the value up by the sanitized key returns nothing for every key containing a '.', '/' or '-')
+	originalKeys := make([]string, 0, len(obj.Labels))
 	for key := range obj.Labels {
-		labelKeys = append(labelKeys, sanitizeLabelName(key))
+		originalKeys = append(originalKeys, key)
 	}
-	sort.Strings(labelKeys)
+	sort.Slice(originalKeys, func(i, j int) bool {
+		si, sj := sanitizeLabelName(originalKeys[i]), sanitizeLabelName(originalKeys[j])
+		if si != sj {
+			return si < sj
+		}
 
-	labelValues := make([]string, len(obj.Labels))
-	for i, key := range labelKeys {
+		return originalKeys[i] < originalKeys[j]
+	})
+
+	labelKeys := make([]string, len(originalKeys))
+	labelValues := make([]string, len(originalKeys))
+	for i, key := range originalKeys {
+		labelKeys[i] = sanitizeLabelName(key)
 		labelValues[i] = obj.Labels[key]
 	}
 
